@@ -621,3 +621,184 @@ pub fn cpc_duo_c11(ctx: &Ctx, d: &Duo, mk: &dyn Fn() -> Value) {
 pub fn cpc_duo_c12(ctx: &Ctx, d: &Duo, mk: &dyn Fn() -> Value) {
     cpc_spec(ctx, &d.s, &d.r.m, mk);
 }
+
+
+// =============================================================================== Count-Min / Bloom
+
+/// C12 + C18 for a Count-Min image against the explorer's model table.
+pub fn cm_spec(ctx: &Ctx, st: &crate::c08::CmState, mk: &dyn Fn() -> Value) {
+    match spec_misc::cm_decode(st.image) {
+        Err(e) => {
+            ctx.violation("cm.image.undecodable", &format!("the spec decoder rejects the emitted image: {e}"), with_image(mk, st.image));
+        }
+        Ok(im) => {
+            let mut bad = vec![];
+            if im.total_len != st.image.len() {
+                bad.push(("cm.image.length", format!("image is {} bytes, the layout accounts for {}", st.image.len(), im.total_len)));
+            }
+            let n = st.hashes as usize * st.buckets as usize;
+            let want_len = if st.model_total == 0 { 16 } else { 24 + 8 * n };
+            if st.image.len() != want_len {
+                bad.push(("cm.size.image", format!("image is {} bytes, the configuration fixes {}", st.image.len(), want_len)));
+            }
+            if im.num_buckets != st.buckets || im.num_hashes != st.hashes {
+                bad.push(("cm.image.header", format!("buckets/hashes image {}/{} sketch {}/{}", im.num_buckets, im.num_hashes, st.buckets, st.hashes)));
+            }
+            if im.seed_hash != spec_misc::seed_hash(st.seed) {
+                bad.push(("cm.image.seed_hash", format!("seed hash {:#x} but reference {:#x}", im.seed_hash, spec_misc::seed_hash(st.seed))));
+            }
+            if im.empty != (st.model_total == 0) {
+                bad.push(("cm.image.empty_flag", format!("EMPTY flag {} but total weight {}", im.empty, st.model_total)));
+            }
+            if im.total != st.model_total || (st.model_total != 0 && im.table != st.model_table) {
+                bad.push(("cm.image.table", "total/counters decoded from the image differ from the model table".to_string()));
+            }
+            for (k, w) in bad {
+                ctx.violation(k, &w, with_image(mk, st.image));
+            }
+        }
+    }
+}
+
+fn cm_rt<T: datasketches::countmin::CountMinValue + std::fmt::Debug>(ctx: &Ctx, st: &crate::c08::CmState, mk: &dyn Fn() -> Value) {
+    use datasketches::countmin::CountMinSketch;
+    let ty = st.ty;
+    match catch(|| CountMinSketch::<T>::deserialize_with_seed(st.image, st.seed)) {
+        Err(p) => {
+            ctx.violation(&format!("panic|{}", p.site_key()), &format!("CountMinSketch<{ty}>::deserialize of own image panicked: {}", p.message), with_image(mk, st.image));
+        }
+        Ok(Err(e)) => {
+            ctx.violation(&format!("cm.roundtrip.rejected.{ty}"), &format!("deserialize(serialize(s)) fails: {e}"), with_image(mk, st.image));
+        }
+        Ok(Ok(d)) => {
+            if d.num_hashes() != st.hashes || d.num_buckets() != st.buckets || d.seed() != st.seed || d.total_weight().to_f64() != st.model_total as f64 {
+                ctx.violation(&format!("cm.roundtrip.queries.{ty}"), "configuration or total weight differ after a round trip", with_image(mk, st.image));
+                return;
+            }
+            // table + total + configuration are the whole state, and C12 shows the image encodes
+            // them exactly: byte-identical re-serialization means identical state
+            if d.serialize() != st.image {
+                ctx.violation(&format!("cm.roundtrip.reserialize.{ty}"), "re-serialization is not byte-identical", with_image(mk, st.image));
+                return;
+            }
+            // continuation: one more update lands in the same counters as in a sketch restored again
+            if (st.model_total as u128) < (crate::cmm::max_of(ty) as u128) / 4 {
+                let mut a = d.clone();
+                let mut b = CountMinSketch::<T>::deserialize_with_seed(&d.serialize(), st.seed).unwrap();
+                a.update(12345u64);
+                b.update(12345u64);
+                a.merge(&d);
+                b.merge(&d);
+                if a.serialize() != b.serialize() {
+                    ctx.violation(&format!("cm.roundtrip.continuation.{ty}"), "update+merge on restored sketches diverge", with_image(mk, st.image));
+                }
+            }
+        }
+    }
+}
+
+/// C11 for a Count-Min state.
+pub fn cm_roundtrip(ctx: &Ctx, st: &crate::c08::CmState, mk: &dyn Fn() -> Value) {
+    match st.ty {
+        "u8" => cm_rt::<u8>(ctx, st, mk),
+        "u16" => cm_rt::<u16>(ctx, st, mk),
+        "u32" => cm_rt::<u32>(ctx, st, mk),
+        "u64" => cm_rt::<u64>(ctx, st, mk),
+        "i8" => cm_rt::<i8>(ctx, st, mk),
+        "i16" => cm_rt::<i16>(ctx, st, mk),
+        "i32" => cm_rt::<i32>(ctx, st, mk),
+        _ => cm_rt::<i64>(ctx, st, mk),
+    }
+}
+
+/// C12 + C18 for a Bloom filter image against the explorer's model bits.
+pub fn bloom_spec(ctx: &Ctx, st: &crate::c09::BloomState, mk: &dyn Fn() -> Value) {
+    match spec_misc::bloom_decode(st.image) {
+        Err(e) => {
+            ctx.violation("bloom.image.undecodable", &format!("the spec decoder rejects the emitted image: {e}"), with_image(mk, st.image));
+        }
+        Ok(im) => {
+            let pop: u64 = st.model_bits.iter().map(|w| w.count_ones() as u64).sum();
+            let mut bad = vec![];
+            if im.total_len != st.image.len() {
+                bad.push(("bloom.image.length", format!("image is {} bytes, the layout accounts for {}", st.image.len(), im.total_len)));
+            }
+            let want_len = if pop == 0 { 24 } else { 32 + 8 * st.model_bits.len() };
+            if st.image.len() != want_len {
+                bad.push(("bloom.size.image", format!("image is {} bytes, the configuration fixes {}", st.image.len(), want_len)));
+            }
+            if im.num_hashes != st.num_hashes || im.seed != st.seed || im.num_longs as usize != st.model_bits.len() {
+                bad.push(("bloom.image.header", format!("hashes/seed/numLongs image {}/{}/{} filter {}/{}/{}", im.num_hashes, im.seed, im.num_longs, st.num_hashes, st.seed, st.model_bits.len())));
+            }
+            if im.empty != (pop == 0) {
+                bad.push(("bloom.image.empty_flag", format!("EMPTY flag {} but {} bits set", im.empty, pop)));
+            }
+            if im.words != st.model_bits || im.num_bits_set != pop {
+                bad.push(("bloom.image.bits", "bit array / bit count decoded from the image differ from the model".to_string()));
+            }
+            for (k, w) in bad {
+                ctx.violation(k, &w, with_image(mk, st.image));
+            }
+        }
+    }
+}
+
+/// C11 for a Bloom filter state.
+pub fn bloom_roundtrip(ctx: &Ctx, st: &crate::c09::BloomState, mk: &dyn Fn() -> Value) {
+    use datasketches::bloom::BloomFilter;
+    match catch(|| BloomFilter::deserialize(st.image)) {
+        Err(p) => {
+            ctx.violation(&format!("panic|{}", p.site_key()), &format!("BloomFilter::deserialize of own image panicked: {}", p.message), with_image(mk, st.image));
+        }
+        Ok(Err(e)) => {
+            ctx.violation("bloom.roundtrip.rejected", &format!("deserialize(serialize(s)) fails: {e}"), with_image(mk, st.image));
+        }
+        Ok(Ok(d)) => {
+            let f = st.filter;
+            if d != *f || d.bits_used() != f.bits_used() || d.capacity() != f.capacity() || d.is_empty() != f.is_empty() || d.num_hashes() != f.num_hashes() || d.seed() != f.seed() {
+                ctx.violation("bloom.roundtrip.queries", "restored filter differs from the original", with_image(mk, st.image));
+                return;
+            }
+            for x in 0..16u64 {
+                if d.contains(&x) != f.contains(&x) {
+                    ctx.violation("bloom.roundtrip.contains", &format!("contains({x}) differs after a round trip"), with_image(mk, st.image));
+                    return;
+                }
+            }
+            if d.serialize() != st.image {
+                ctx.violation("bloom.roundtrip.reserialize", "re-serialization is not byte-identical", with_image(mk, st.image));
+                return;
+            }
+            // one-step bisimulation
+            for op in 0..5 {
+                let mut a = f.clone();
+                let mut b = d.clone();
+                match op {
+                    0 => {
+                        a.insert(99u64);
+                        b.insert(99u64);
+                    }
+                    1 => {
+                        let _ = (a.contains_and_insert(&"zz"), b.contains_and_insert(&"zz"));
+                    }
+                    2 => {
+                        a.union(f);
+                        b.union(f);
+                    }
+                    3 => {
+                        a.invert();
+                        b.invert();
+                    }
+                    _ => {
+                        a.intersect(&d);
+                        b.intersect(f);
+                    }
+                }
+                if a != b || a.bits_used() != b.bits_used() {
+                    ctx.violation("bloom.roundtrip.continuation", &format!("continuation op {op} diverges between original and restored filter"), with_image(mk, st.image));
+                    return;
+                }
+            }
+        }
+    }
+}
